@@ -162,6 +162,13 @@ type StreamCut struct {
 	Conn  string `json:"conn"` // e.g. "c1>srv"
 	Cuts  []int  `json:"cuts,omitempty"`       // sizes of arrival chunks, cycled
 	Reads []int  `json:"read_sizes,omitempty"` // max bytes per Read, cycled
+	// Coalesce: what is written on the connection at one instant leaves as one piece of stream
+	// and is cut by Cuts regardless of write boundaries (segments may end inside the frame
+	// that follows a whole one)
+	Coalesce bool `json:"coalesce,omitempty"`
+	// Window: receive window in bytes (0 = unlimited): a writer blocks while that many bytes are
+	// outstanding, i.e. sent and not yet consumed by the other end's application
+	Window int `json:"window,omitempty"`
 }
 
 // Violation is the record a failed oracle produces.
